@@ -589,6 +589,8 @@ func main() {
 		}
 	}
 	lap("pipeline")
+	phases["kindC_slowest_ms"] = atomic.LoadInt64(&slowestC)
+	phases["kindC_park_unstable"] = atomic.LoadInt64(&parkUnstable)
 	// 6. the refreshDebouncer with pending waiters: conducted schedules, racing rounds, Session.refreshRing callers
 	// pending across Session.Close
 	extra := map[string]int{}
